@@ -112,6 +112,7 @@ static void box_ops(const IntervalVector& x, const IntervalVector& y) {
   EMIT("voverlaps %s %s => %s\n", sx.c_str(), sy.c_str(), tok(x.overlaps(y)).c_str());
   EMIT("vis_disjoint %s %s => %s\n", sx.c_str(), sy.c_str(), tok(x.is_disjoint(y)).c_str());
   { IntervalVector* res; int n = x.diff(y, res); EMIT("vdiff %s %s => %s\n", sx.c_str(), sy.c_str(), tokboxes(n, res).c_str()); delete[] res; }
+  if (x.size() <= 3) { IntervalVector* res; int n = x.diff(y, res, false); EMIT("vdiffnc %s %s => %s\n", sx.c_str(), sy.c_str(), tokboxes(n, res).c_str()); delete[] res; }     // compactness = false: flat pieces are kept
   if (!y.is_empty()) { IntervalVector* res; int n = y.complementary(res); EMIT("vcompl %s => %s\n", sy.c_str(), tokboxes(n, res).c_str()); delete[] res; }
   EMIT("cart_prod %s %s => %s\n", sx.c_str(), sy.c_str(), tok(cart_prod(x, y)).c_str());
 }
